@@ -249,8 +249,8 @@ func (fr *frame) sliceInstr(ins *ssa.Slice) Value {
 		}
 		ex.safe(ex.C.Ule(hi, ex.k64(n)), "slice bounds out of range (string high)", site)
 		ex.safe(ex.C.Ule(lo, hi), "slice bounds out of range (string low)", site)
-		l := ex.concretize(lo, "string slice low", 64)
-		h := ex.concretize(hi, "string slice high", 64)
+		l := ex.concretize(lo, "string slice low", 1024)
+		h := ex.concretize(hi, "string slice high", 1024)
 		return Str{xv.B[l:h]}
 	case Ptr: // *array
 		if xv.IsNil() {
